@@ -42,6 +42,16 @@ def labels_of(label):
 
 
 def run_unit(unit_name, rlimit=None, extra_args=()):
+    r = _run_unit(unit_name, rlimit, extra_args)
+    if rlimit is None and any("rlimit" in x.lower() or "resource limit" in x.lower() for x in r["infra"]):
+        # a solver resource limit is not a verdict: retry once with a ten times larger budget
+        r2 = _run_unit(unit_name, 100, extra_args)
+        r2["retried_with_rlimit"] = 100
+        return r2
+    return r
+
+
+def _run_unit(unit_name, rlimit=None, extra_args=()):
     """returns dict(unit, obligations{id->info}, failures[list], canaries, functions, counts, dropped,
     trusted[list], cmd, wall_s, verus_summary, gen_path)"""
     os.makedirs(BUILD, exist_ok=True)
